@@ -52,3 +52,25 @@ TEXT["C16"] = {
     "level_text": "One abstract package is rendered to JSON, YAML, Starlark (plain and through a macro library with relative loads) and Makefile annotations and must load identically; multi-file packages must load identically 12 times under shuffled creation order and 1-16 workers without losing nodes; byte-level mutations of renderings must yield a value or an error, never a panic/fatal error/hang.",
     "level_note": "Trusted: the renderers (YAML renderings are validated by reading them back with yaml.v3). Pkl is not exercised (needs the external pkl binary).",
 }
+
+TEXT["C03"] = {
+    "engine": "harness/c03 + lib/walkeng (E-walk: synctest bubble with generated virtual latencies; real scheduler under -race)",
+    "technique": "schedule-owning property testing: real walker + real worker pool in a testing/synctest bubble where generated latencies determine the completion order; invariants over the event history; race-detector stress on the real scheduler",
+    "design_ref": "DESIGN.md §4 C03",
+    "level_text": "Generated DAGs (incl. alias nodes), selections, worker counts and per-node virtual latencies drive the real Walker and TaskWorkerPool; the event history must show dependencies-first, at most one start per node, running <= num_workers, nothing unselected. The same cases run on the real scheduler with the race detector.",
+    "level_note": "Same-instant interleavings are the Go scheduler's (sampled, not enumerated). Command-level ordering of the real binary (S/E markers in real builds) is checked by the history engine of C01/C02/C05.",
+}
+TEXT["C04"] = {
+    "engine": "harness/c04 + lib/walkeng (bubble, race, stress) + restore fault enumeration through the real output registry",
+    "technique": "property testing over failure/cancel patterns with synctest deadlock detection, race-detector stress, and exhaustive single/pair fault enumeration over every cache object of a restore",
+    "design_ref": "DESIGN.md §4 C04",
+    "level_text": "Walker level: generated failure sets, fail-fast on/off and cancel times over graphs up to 4000 nodes; Walk must return and leave every selected node resolved. Restore level: for every cache blob of generated outputs x {deleted, truncated, emptied}, pairs of deletions and all-deleted, LoadOutputs must return.",
+    "level_note": "Fault enumeration is complete per generated output set for single faults (and up to 40 pairs); which output sets are generated is sampled. Leaked goroutines after Walk returned are not violations.",
+}
+TEXT["C10"] = {
+    "engine": "harness/c10: controller + real contender processes built with a check-time yield-point overlay of the current workspace_locker.go (cmd/lockrewrite, c10/hooks.go.txt, cmd/contender)",
+    "technique": "controlled-schedule testing of real processes: bounded exhaustive stateless DFS over all 2-process interleavings of file-system steps with crash points, plus rapid-drawn 3-process schedules with crashes and cancels",
+    "design_ref": "DESIGN.md §4 C10",
+    "level_text": "Every interleaving of two contenders' individual file-system operations up to 8 (quick) / 12 (thorough) scheduling decisions, with at most one kill -9 at any yield point, from five initial lock-file states, cold and with an established holder (where a waiter may also be cancelled), is executed against the real locker; random 3-process schedules extend this. Safety (never two holders, newcomer cannot enter), no Lock error, progress of survivors and recovery by a fresh process are checked.",
+    "level_note": "Exhaustive only within the decision bound and for 2 processes; steps are serialised by the controller (atomic file-system calls). The yield-point table is fixed (os.OpenFile/ReadFile/Remove/Stat/..., Write/Close/Truncate, syscall.Flock, Process.Signal, time.After).",
+}
